@@ -78,6 +78,27 @@ impl Monitor for C07 {
                 _ => ctx.rep.count("not-a-verdict (see C04/C10)"),
             }
         }
+        // the same on a solver that has solved an unrelated problem before (two arbitrary version
+        // sets of the universe): in a conflict-free problem eager encoding of what the first solve
+        // fetched adds no constraint that could move the answer away from the first choices
+        if h % 3 == 0 && !c.u.vsets.is_empty() {
+            let nv = c.u.vsets.len() as u64;
+            let other = Prob { reqs: vec![Req::Single((h / 7 % nv) as u32), Req::Single((h / 97 % nv) as u32)], cons: vec![], soft: vec![] };
+            let mut sess = crate::run::Session::new(u.clone(), &c.runs[0]);
+            let _ = sess.solve(&other);
+            ctx.rep.evaluations += 1;
+            match sess.solve(&c.p) {
+                Outcome::Ok(sol) => {
+                    ctx.rep.count("precondition-holds:also-solved-on-a-reused-solver");
+                    let set: BTreeSet<u32> = sol.iter().copied().collect();
+                    if set != gs {
+                        ctx.violation("first-choice-closure-not-returned (solver reused after a different problem)", format!("first {}: expected {:?}, got {:?}", problem_text(&u, &other), gs.iter().map(|&s| u.solv_label(s)).collect::<Vec<_>>(), set.iter().map(|&s| u.solv_label(s)).collect::<Vec<_>>()));
+                    }
+                }
+                Outcome::Unsat(_) => ctx.violation("unsolvable-although-first-choices-are-compatible (solver reused after a different problem)", problem_text(&u, &other)),
+                _ => ctx.rep.count("not-a-verdict (see C04/C13)"),
+            }
+        }
         if g.len() >= 3 {
             ctx.rep.sample(|| json!({"universe": universe_text(&u), "problem": problem_text(&u, &c.p), "closure": g.iter().map(|&s| u.solv_label(s)).collect::<Vec<_>>()}));
         }
